@@ -239,8 +239,8 @@ def post_bintest(run, snap, res, args, kwargs):
         return run.ood(mon, "no-segments")
     if not bins or not snap["has_weight"]:
         return run.ood(mon, "no-bins-or-weights")
-    if any(_isnan(b["log2"]) or _isnan(b["weight"]) or not (0 < b["weight"] < 1) for b in bins):
-        return run.ood(mon, "weight-not-in-(0,1)")
+    if any(_isnan(b["log2"]) or _isnan(b["weight"]) or not (0 < b["weight"] <= 1) for b in bins):
+        return run.ood(mon, "weight-not-in-(0,1]")
     keys = [(b["chromosome"], b["start"], b["end"]) for b in bins]
     if len(set(keys)) != len(keys):
         return run.ood(mon, "duplicate-bins")
@@ -252,10 +252,19 @@ def post_bintest(run, snap, res, args, kwargs):
             return run.ood(mon, "bin-not-in-exactly-one-segment")
         segmean.append(hits[0]["log2"])
     anti = [b["gene"] in ("Antitarget", "Background") for b in bins]
+    # weight exactly 1: the deviate is +-infinity (p = 0) for any non-zero residual, and 0/0 -- no defined p -- for a residual of exactly 0
+    if any(b["weight"] == 1 and b["log2"] == segmean[i] for i, b in enumerate(bins)):
+        return run.ood(mon, "p-undefined:weight-1-and-zero-residual")
+    w1 = sum(b["weight"] == 1 for b in bins)
+
+    def pval(i):
+        if bins[i]["weight"] == 1:
+            return 0.0
+        return 2.0 * sps.norm.cdf(-abs((bins[i]["log2"] - segmean[i]) / math.sqrt(1 - bins[i]["weight"])))
 
     def expected(first_filter):
         idx = [i for i in range(len(bins)) if not (snap["target_only"] and first_filter and anti[i])]
-        p = [2.0 * sps.norm.cdf(-abs((bins[i]["log2"] - segmean[i]) / math.sqrt(1 - bins[i]["weight"]))) for i in idx]
+        p = [pval(i) for i in idx]
         q = bh_definition(p) if len(p) <= 6000 else None
         if q is None:
             return None
@@ -270,7 +279,7 @@ def post_bintest(run, snap, res, args, kwargs):
     for want in wants:
         amb = {k for k, q in want.items() if abs(q - snap["alpha"]) <= 1e-12}
         if set(got) - amb == set(want) - amb and all(abs(got[k] - want[k]) <= 1e-12 + 1e-9 * want[k] for k in got if k in want):
-            return run.held(mon, "bintest:" + ("target_only" if snap["target_only"] else "all") + (":hits" if want else ":nohits"))
+            return run.held(mon, "bintest:" + ("target_only" if snap["target_only"] else "all") + (":hits" if want else ":nohits") + (":weight-1" if w1 else ""))
     want = wants[0]
     if set(got) != set(want):
         mech = "bintest-spurious-bin" if set(got) - set(want) else "bintest-missing-bin"
